@@ -397,10 +397,12 @@ def check(pid, tier):
         }
         if infra:
             ev["coverage"]["inconclusive"] = [i[:400] for i in infra]
-        os.makedirs(os.path.join(VERIF, "evidence"), exist_ok=True)
-        tmp = os.path.join(VERIF, "evidence", pid + ".json.tmp")
+        # evidence/ describes /repo only: runs against another tree (sensitivity runs with VERIF_REPO) report elsewhere
+        evdir = os.path.join(VERIF, "evidence" if os.path.realpath(REPO) == "/repo" else "evidence_other_tree")
+        os.makedirs(evdir, exist_ok=True)
+        tmp = os.path.join(evdir, pid + ".json.tmp")
         json.dump(ev, open(tmp, "w"), indent=1, sort_keys=False)
-        os.replace(tmp, os.path.join(VERIF, "evidence", pid + ".json"))
+        os.replace(tmp, os.path.join(evdir, pid + ".json"))
 
         for l in known_lines:
             print(l)
